@@ -24,6 +24,14 @@ is observed and judged.  User classes may derive from each other and may be supp
 Model side: `navh` — the class table after the recorded history of constructions (Obj/ClassTbl.lean)
 applied to the plain Python objects (instance dictionaries, no meta data).
 
+Multi-typed containment attributes (objgen.multi_type, 40 % of the cases): one attribute assigned from
+several rules / base types / match rules — `(k a=X | k a=Y | k a=INT)`, `(…)?`, `(…)*`, `k a=X k a=Y`, several
+list assignments one after the other or as alternatives.  textX gives such an attribute the generic meta-class
+OBJECT: what the meta-model declares about the attribute says nothing about the classes of the objects it
+holds.  Such models are asked `get_children_of_type` for every class that occurs (from the root) and for more
+(type, start) pairs; sessions also get variants in which a rule is contained nowhere / an attribute holds
+another rule (what can occur below the objects of a shared user class differs between the versions).
+
 Oracle: decided from the property statement on the *expected* object tree of the
 derivation (no model, no textX metadata).
 """
@@ -48,11 +56,19 @@ def focus_unusual_single(rng, gram):
     abstract rule) is frequent: the class behind one such attribute becomes a user class with traits"""
     R = G.rules_of(gram)
     singles = [e for ru in gram["rules"] if ru["kind"] == "common" for e in ru["elems"]
-               if e["k"] == "cont" and e["mult"] in ("one", "opt")]
+               if (e["k"] == "cont" and e["mult"] in ("one", "opt"))
+               or (e["k"] == "mcont" and e["form"] in ("choice", "choiceopt"))]
     if not singles:
         return
     e = rng.choice(singles)
-    leaves = sorted(G.instances_of(gram, e["target"]))
+    if e["k"] == "mcont":
+        ts = [a["t"] for a in e["alts"] if a["t"] in R and R[a["t"]]["kind"] != "match"]
+        if not ts:
+            return
+        target = rng.choice(ts)
+    else:
+        target = e["target"]
+    leaves = sorted(G.instances_of(gram, target))
     if not leaves:
         return
     ru = R[rng.choice(leaves)]
@@ -116,6 +132,42 @@ def gen_queries(rng, gram, exp, small=False):
     return qs
 
 
+def step_queries(rng, gram, exp, small=False):
+    """calls for the model of an earlier step of a session: the few random ones plus a type-directed search from the
+    root for up to 3 classes (side stream: the random ones are what they were) — whatever a navigation call derives
+    from the class objects and keeps (attribute lists, reachable types, …) is then derived in the earlier step, for
+    the grammar of that step"""
+    qs = gen_queries(rng, gram, exp, small)
+    side = type(rng)(f"{rng.s}:stepoftype")
+    classes = sorted({o["cls"] for o in exp})
+    for typ in side.shuffle(classes)[:3]:
+        qs.append(["oftype", 0, side.chance(0.3), typ, side.chance(0.5), {"k": "all"}])
+    return qs
+
+
+def more_oftype(rng, gram, exp, every=False):
+    """more get_children_of_type calls: the type-directed search is the one navigation call that may consult the
+    meta-model's *type* information (which classes can occur below an attribute), so it is asked for several types
+    per model, from the root and from inner objects.  Models of grammars with multi-typed attributes — where the
+    declared type says nothing about the classes of the contained objects — are asked for every class that occurs
+    (from the root) and for 1-2 (type, start) pairs more; the others for 2 pairs."""
+    n = len(exp)
+    classes = sorted({o["cls"] for o in exp})
+    rule_names = [r["name"] for r in gram["rules"] if r["kind"] != "match"]
+    multi = any(e["k"] == "mcont" for r in gram["rules"] if r["kind"] == "common" for e in r["elems"])
+    qs = []
+    if multi or every:
+        for typ in rng.shuffle(classes)[:6]:
+            fol = {"k": "all"} if rng.chance(0.8) else spec_gen(rng, exp, classes)
+            qs.append(["oftype", 0, rng.chance(0.5), typ, rng.chance(0.5), fol])
+    for _ in range(rng.randint(1, 2) if multi else 2):
+        root = rng.below(n)
+        fol = {"k": "all"} if rng.chance(0.7) else spec_gen(rng, exp, classes)
+        typ = rng.choice(classes) if rng.chance(0.85) else rng.choice(rule_names)
+        qs.append(["oftype", root, rng.chance(0.5), typ, rng.chance(0.5), fol])
+    return qs
+
+
 class Prop(Check):
     ID = "C05"
     LEAN_MODULE = "TextxVerif.Props.C05"
@@ -127,6 +179,8 @@ class Prop(Check):
         "Obj.C05_children_mem",
         "Obj.C05_children_order",
         "Obj.C05_children_of_type",
+        "Obj.C05_children_of_type_pruned",
+        "Obj.C05_children_of_type_pruned_false",
         "Obj.C05_refs_inert",
         "Obj.C05_refs_inert_update",
         "Obj.C05_parent_of_type",
@@ -143,11 +197,13 @@ class Prop(Check):
     QUICK_CASES = 300
     THOROUGH_CASES = 6000
     PROCS_THOROUGH = 4
-    RULE = ("random grammar (2-6 common rules, abstract and match rules, recursion, references, user classes incl. "
+    RULE = ("random grammar (2-6 common rules, abstract and match rules, recursion, references, multi-typed containment "
+            "attributes — one attribute assigned from several rules / base types in alternatives, sequences or several "
+            "lists (meta-class OBJECT), 40 % of the cases, then get_children_of_type for every class present —, user classes incl. "
             "falsy / container-like / iterable / unhashable ones, deriving from each other, given as list or callable) "
             "+ derived model + 6-14 navigation calls; 40 % of the cases are sessions: 1-3 earlier meta-models (variants "
-            "of the grammar with other containment attributes, independent grammars with the same rule names, the same "
-            "grammar) sharing the user class objects or not, earlier models of the same meta-model, deferred calls on "
+            "of the grammar with other containment attributes / other rules held by an attribute / a rule contained "
+            "nowhere, independent grammars with the same rule names, the same grammar) sharing the user class objects or not, earlier models of the same meta-model, deferred calls on "
             "older models, released models, each step with its own calls and judged; non-trivial = model with >= 4 contained objects, nesting depth >= 2, at "
             "least one resolved reference to an object, and a get_children call whose result is a non-empty proper "
             "subset of the objects below its root")
@@ -179,6 +235,11 @@ class Prop(Check):
         for k in range(n):
             r = rng.fork(f"case{k}")
             gram = G.gen_grammar(r, want_traits=True, p_user=0.3)
+            # multi-typed containment attributes (one attribute assigned from several rules: meta-class OBJECT);
+            # a side stream seeded from the generator state, so the other cases are what they were
+            side = type(r)(f"{r.s}:multi")
+            if side.chance(0.4):
+                G.multi_type(side, gram)
             if r.chance(0.04):
                 # an attribute that happens to be called like textX's own container link
                 els = [e for ru in gram["rules"] if ru["kind"] == "common" for e in ru["elems"]
@@ -203,9 +264,10 @@ class Prop(Check):
             if h.chance(0.25) and any(ru.get("user") for ru in gram["rules"]):
                 case["provider"] = True
             if with_hist:
-                hist, extra = H.gen_history(h, gram, tree, gen_queries)
+                hist, extra = H.gen_history(h, gram, tree, step_queries)
                 case["history"] = hist
                 case.update(extra)
+            case["queries"] += more_oftype(side, gram, exp, every=with_hist)
             yield case
 
     # ------------------------------------------------------------------ implementation
@@ -330,8 +392,17 @@ class Prop(Check):
                 posdict = [[k[0], k[1], idx.get(id(v), -1)] for k, v in prd.items()]
             except Exception as e:
                 posdict = {"exc": type(e).__name__}
+        # containment attributes to which the real meta-model gave the generic type OBJECT (assigned from several rules)
+        generic = []
+        for nm in names:
+            try:
+                for a in (getattr(L.mm[nm], "_tx_attrs", None) or {}).values():
+                    if a.cont and getattr(a.cls, "__name__", None) == "OBJECT":
+                        generic.append([nm, a.name])
+            except Exception:
+                pass
         obs = {"outcome": "ok", "n": n, "heap": heap, "parents": parents, "models": models, "answers": answers,
-               "posdict": posdict,
+               "posdict": posdict, "generic": generic,
                "unknown": unknown[:10], "names": names, "truth": truth, "pheap": pheap, "upto": len(S.hist)}
         obs.update(self.dump_ptree(L, names))
         return obs
@@ -645,6 +716,50 @@ class Prop(Check):
                     last[cid] = cont
             if changed and o.get("outcome") == "ok" and any(po[0] in changed for po in o.get("pheap") or []):
                 sess["cases_whose_last_model_has_instances_of_such_a_class"] += 1
+        # multi-typed containment attributes: how many, in which form, what they hold, and how often a type-directed
+        # search had to pass through one that belongs to an object below the start object
+        mt = {"cases": 0, "elements_by_form": {}, "attributes_with_meta_class_OBJECT": 0, "objects_held": 0,
+              "primitive_values_held": 0, "get_children_of_type_calls": 0,
+              "calls_whose_result_lies_below_such_an_attribute_of_an_inner_object": 0,
+              "cases_with_such_a_call": 0}
+        for c, o in zip(cases, obs):
+            mels = {(r["name"], e["attr"]): e for r in c["gram"]["rules"] if r["kind"] == "common"
+                    for e in r["elems"] if e["k"] == "mcont"}
+            mt["get_children_of_type_calls"] += sum(1 for q in c.get("queries", []) if q[0] == "oftype")
+            if not mels or not (isinstance(o, dict) and o.get("outcome") == "ok"):
+                continue
+            mt["cases"] += 1
+            for e in mels.values():
+                mt["elements_by_form"][e["form"]] = mt["elements_by_form"].get(e["form"], 0) + 1
+            mt["attributes_with_meta_class_OBJECT"] += len(o.get("generic") or [])
+            _, exp = G.expected(c["gram"], c["tree"], PLAIN)
+            via = {}  # object -> it sits directly in a multi-typed attribute
+            for e in exp:
+                for attr, kind, vals, many in e["attrs"]:
+                    if kind == "cont" and (e["cls"], attr) in mels:
+                        for v in vals:
+                            if v is None:
+                                mt["primitive_values_held"] += 1
+                            else:
+                                mt["objects_held"] += 1
+                                via[v] = True
+            hit = False
+            for q, got in zip(c["queries"], o["answers"]):
+                if q[0] != "oftype" or not isinstance(got, list):
+                    continue
+                root = q[1] % len(exp)
+                for x in got:
+                    # an edge through a multi-typed attribute on the path root -> x whose owner is not the root
+                    y, found = x, False
+                    while y != root and exp[y]["parent"] is not None:
+                        if via.get(y) and exp[y]["parent"] != root:
+                            found = True
+                        y = exp[y]["parent"]
+                    if found and y == root:
+                        mt["calls_whose_result_lies_below_such_an_attribute_of_an_inner_object"] += 1
+                        hit = True
+                        break
+            mt["cases_with_such_a_call"] += 1 if hit else 0
         absn = None
         for o in obs:
             if isinstance(o, dict) and o.get("ptree") is not None:
@@ -663,6 +778,7 @@ class Prop(Check):
                                  "abstract_nodes_with_several_children": absn,
                                  "editor_support_position_maps": tools,
                                  "sessions": sess,
+                                 "multi_typed_containment_attributes": mt,
                                  "navigation_calls": nq, "cases_with_user_classes": user,
                                  "cases_per_user_class_trait": traits, "falsy_objects": falsy,
                                  "cases_from_file": sum(1 for c in cases if c.get("file"))}}
